@@ -1174,6 +1174,34 @@ func VerifInj(kv map[string]string) string {
 			}
 		}
 	}
+	if kv["sk"] == "2" {
+		// the value is the fixture's own value padded with white space (no marker): if validation accepts it, every file that is
+		// still written must keep the directive / block skeleton of the unmodified fixture — either both the validator and the
+		// generator trim, or the value sits inside quotes; a validator that trims while the generator does not is the failure
+		base, err := verifFixtureSet(plus, "", nil, fx)
+		if err != nil {
+			return "fixture-error"
+		}
+		bfiles, _, err := verifRenderSet(plus, base, host)
+		if err != nil {
+			return "setup-error"
+		}
+		same := 0
+		for _, f := range names {
+			bf, ok := bfiles[f]
+			if !ok {
+				continue
+			}
+			same++
+			if a, b := verifSkeleton(files[f]), verifSkeleton(bf); a != b {
+				return "acc#bad=" + verifClean(fmt.Sprintf("%s: white space around the value changes the skeleton: %s", f, verifFirstDiff(a, b)))
+			}
+			if msg := verifio.NgxWellFormed(files[f]); msg != "" {
+				return "acc#bad=" + verifClean(f+": "+msg)
+			}
+		}
+		return fmt.Sprintf("acc#spans=%d#marks=0#pad=1", same)
+	}
 	spans := 0
 	marks := 0
 	for _, f := range names {
